@@ -74,7 +74,8 @@ def got_prefix(m):
 def replay_session(sess, answers, serialize_line, opw, parse_answer):
     """the Assembler session that assembles what the Builder serializes: same labels and sections, then the serialized calls"""
     hdr = sess[0].split()
-    out = ["new %s asm rec 0" % hdr[1]]
+    # x86: what a validating Builder accepted a validating Assembler accepts (same validator; only a Compiler enables virtual registers)
+    out = ["new %s asm rec %s" % (hdr[1], hdr[4] if hdr[1] != "a64" else "0")]
     for oi in range(1, len(sess)):
         w = opw(sess[oi])
         if w[0] in ("label", "nlabel", "newsec") and parse_answer(answers[oi])["ret"] == 0:
